@@ -106,4 +106,7 @@ MUTANTS = [
     M('sema:decl:float-to-int-only-void-reported', 'sema', ['C08'], 'classical_declaration_statement_to_asg_stmt', 'if promoted_type == Type::Void || &promoted_type == init_type {', 'if promoted_type == Type::Void {'),
     M('types:can_cast_literal:bool<-int', 'types', ['C08'], 'can_cast_literal', '(Float(..), Int(..)) => true,', '(Float(..), Int(..)) => true,\n        (Bool(..), Int(..)) => true,'),
     M('types:promote_base:cross-kind-const-and', 'types', ['C08', 'C20'], 'promote_base_type', '(Int(..), Float(..)) => ty2.clone(),', '(Int(..), Float(w, _)) => Float(*w, promote_constness(ty1, ty2)),'),
+    # ---- ASTX (gate parameters, type keywords)
+    M('astx:gate:angles-are-qubits', 'astx', ['C05', 'C06'], 'ast::Gate::angle_params', '        if qubits_or_none.is_none() {\n            qubits_or_none\n        } else {\n            qubits_or_angles\n        }', '        qubits_or_angles'),
+    M('astx:scalar_type:uint-is-int', 'astx', ['C09'], 'ast::ScalarType::kind', 'T![uint] => UInt,', 'T![uint] => Int,'),
 ]
